@@ -11,7 +11,7 @@ import spfiles
 from .base import Prop, exc_name
 
 K = Fraction("4148.808")
-PATHS = ("law", "blk_roll", "blk_valid", "stream", "read_dedisp", "dmt", "dmt_valid", "inverse")
+PATHS = ("law", "blk_roll", "blk_valid", "stream", "read_dedisp", "dmt", "dmt_valid", "inverse", "kernel")
 
 
 def exact_delay(dm, f32, fref, tsamp):
@@ -35,11 +35,72 @@ class C09(Prop):
     assumptions = ["float32 evaluation of the law is validated, not proved",
                    "the valid-samples variants and the streamed path index from the earliest needed sample: "
                    "x[c, t + off + delay_c] with off = max(0, -min delay)"]
-    regimes_expected = list(PATHS)
+    regimes_expected = list(PATHS) + ["dmt-inband-fine", "dmt_valid-inband-fine"]
     budget_s = (150, 1200)
+
+    def _kernel_case(self, rng):
+        """direct call of a compiled block kernel on a tiny block, for the GENERATED kernels (KB requests)"""
+        kern = rng.choice(("roll_block", "roll_block_valid", "dmt_block", "dmt_block_valid"))
+        rows, cols = rng.choice((1, 2, 3, 4)), rng.choice((1, 2, 3, 5, 8))
+        ndm = rng.choice((1, 2, 3))
+        wide = kern in ("roll_block", "dmt_block")
+        lim = cols + 2 if wide else max(1, cols // 2)
+        nsh = rows if kern.startswith("roll") else ndm
+        if rng.random() < 0.1 and kern.startswith("roll"):
+            nsh = rows + rng.choice((-1, 1))          # length mismatch: must be rejected
+        n = max(nsh, 0) * (1 if kern.startswith("roll") else rows)
+        return {"path": "kernel", "kern": kern, "rows": rows, "cols": cols, "nsh": max(nsh, 0),
+                "sh": [rng.randint(-lim, lim) for _ in range(n)], "C": rows, "n": cols, "dm": 0.0,
+                "foff": -1.0, "fch1": 1000.0, "tsamp": 1e-3, "ref": "ch1", "ndm": ndm, "s": 0, "g": 1}
+
+    def _observe_kernel(self, case):
+        from sigpyproc.core import kernels
+        rows, cols, kern = case["rows"], case["cols"], case["kern"]
+        x = (np.arange(rows * cols, dtype=np.float32) * 3 % 17 + 1).reshape(rows, cols)
+        sh = np.array(case["sh"], dtype=np.int64)
+        if not kern.startswith("roll"):
+            sh = sh.reshape(case["nsh"], rows)
+        try:
+            out = getattr(kernels, kern)(x, sh)
+        except ValueError:
+            return {"rejected": True, "delays": [0]}
+        except Exception as e:  # noqa: BLE001
+            return {"err": exc_name(e), "msg": str(e)[-200:]}
+        return {"data": [float(v) for v in out.ravel()], "shape": list(out.shape), "delays": [int(v) for v in case["sh"]],
+                "x": [float(v) for v in x.ravel()]}
+
+    def _oracle_kernel(self, case, obs):
+        if "err" in obs:
+            return f"{case['kern']} raised {obs['err']}: {obs['msg']}"
+        rows, cols, kern = case["rows"], case["cols"], case["kern"]
+        x = (np.arange(rows * cols, dtype=np.float64) * 3 % 17 + 1).reshape(rows, cols)
+        sh = np.array(case["sh"], dtype=np.int64)
+        roll = kern.startswith("roll")
+        if roll and case["nsh"] != rows:
+            return None if obs.get("rejected") else "a shift vector of the wrong length was accepted"
+        table = sh.reshape(1, rows) if roll else sh.reshape(case["nsh"], rows)
+        if kern in ("roll_block", "dmt_block"):
+            if obs.get("rejected"):
+                return f"{kern} rejected a well-formed request"
+            rolled = [np.array([np.roll(x[r], int(t[r])) for r in range(rows)]) for t in table]
+            want = rolled[0] if roll else np.array([m.sum(axis=0) for m in rolled])
+        else:
+            start, end = max(0, int(table.max())), cols + min(0, int(table.min()))
+            if end - start <= 0:
+                return None if obs.get("rejected") else "an empty no-wrap window was accepted"
+            if obs.get("rejected"):
+                return f"{kern} rejected a request whose no-wrap window is {end - start} samples"
+            win = [np.array([x[r, start - int(t[r]): end - int(t[r])] for r in range(rows)]) for t in table]
+            want = win[0] if roll else np.array([m.sum(axis=0) for m in win])
+        got = np.array(obs["data"]).reshape(obs["shape"])
+        if got.shape != want.shape or not np.array_equal(got, want):
+            return f"{kern}({rows}x{cols}, shifts {case['sh']}): got {got.tolist()}, definition gives {want.tolist()}"
+        return None
 
     def _case(self, rng, path=None):
         path = path or rng.choice(PATHS)
+        if path == "kernel":
+            return self._kernel_case(rng)
         asc = rng.random() < 0.3
         C = rng.choice((1, 2, 4, 8, 16))
         foff = rng.choice((-10.0, -4.0, -0.5, -1 / 3)) * (-1 if asc else 1)
@@ -47,15 +108,15 @@ class C09(Prop):
         if asc:
             fch1 = fch1 - abs(foff) * C
         tsamp = rng.choice((1e-3, 64e-6, 5e-4))
-        dm = rng.choice((0.0, 1.0, 3.5, 10.0, 40.0, -2.0, -10.0))
+        dm = rng.choice((0.0, 1.0, 3.5, 10.0, 15.0, 25.0, 40.0, -2.0, -10.0, -15.0))
         ref = rng.choice(("ch1", "ch1", "max", "min", "center", "num"))
         n = rng.choice((8, 16, 40, 100))
         return {"path": path, "C": C, "foff": foff, "fch1": fch1, "tsamp": tsamp, "dm": dm, "ref": ref, "n": n,
-                "ndm": rng.choice((1, 3)), "s": rng.choice((0, 2)), "g": rng.choice((3, 7, 64))}
+                "ndm": rng.choice((1, 3, 3, 8, 33, 64)), "s": rng.choice((0, 2)), "g": rng.choice((3, 7, 64))}
 
     def corpus(self):
         b = {"C": 8, "foff": -10.0, "fch1": 1500.0, "tsamp": 1e-3, "dm": 40.0, "ref": "ch1", "n": 40, "ndm": 3, "s": 0, "g": 7}
-        return [dict(b, path=p) for p in PATHS] + [dict(b, path="stream", foff=10.0, fch1=1420.0),
+        return [dict(b, path=p) for p in PATHS if p != "kernel"] + [dict(b, path="stream", foff=10.0, fch1=1420.0),
                                                    dict(b, path="stream", dm=-10.0)]
 
     def gen(self, rng, tier):
@@ -79,6 +140,8 @@ class C09(Prop):
         from sigpyproc.readers import FilReader
 
         C, n, dm, path = case["C"], case["n"], case["dm"], case["path"]
+        if path == "kernel":
+            return self._observe_kernel(case)
         h = self._hdr(case, n)
         ref = self._ref(case, h)
         x = unique_block(C, n)
@@ -90,26 +153,31 @@ class C09(Prop):
                 fref = float(ref) if not isinstance(ref, str) else float(getattr(h, "f" + ref))
                 res.update(delays=[int(v) for v in d], neg=[int(v) for v in dneg], fref=fref)
                 return res
-            d = np.atleast_1d(h.get_dmdelays(dm))
+            # the block paths take the reference frequency (in-band references give delays of both signs);
+            # the streamed paths always use the first channel
+            bref = ref if path in ("blk_roll", "blk_valid", "inverse", "dmt", "dmt_valid") else "ch1"
+            d = np.atleast_1d(h.get_dmdelays(dm, ref_freq=bref))
             res["delays"] = [int(v) for v in d]
             if int(np.abs(d).max()) >= n:
                 return {"skip": True}
             blk = FilterbankBlock(x.T.astype(np.float32), h)
             if path == "blk_roll":
-                o = blk.dedisperse(dm)
+                o = blk.dedisperse(dm, ref_freq=bref)
                 res.update(data=[float(v) for v in o.data.ravel()], shape=list(o.data.shape), dmrep=float(o.dm))
             elif path == "blk_valid":
-                o = blk.dedisperse(dm, only_valid_samples=True)
+                if int(d.max()) - int(d.min()) >= n:
+                    return {"skip": True}
+                o = blk.dedisperse(dm, ref_freq=bref, only_valid_samples=True)
                 res.update(data=[float(v) for v in o.data.ravel()], shape=list(o.data.shape), dmrep=float(o.dm))
             elif path == "inverse":
-                o = blk.dedisperse(dm).dedisperse(-dm)
+                o = blk.dedisperse(dm, ref_freq=bref).dedisperse(-dm, ref_freq=bref)
                 res.update(data=[float(v) for v in o.data.ravel()], shape=list(o.data.shape))
             elif path in ("dmt", "dmt_valid"):
-                dd0 = np.atleast_2d(h.get_dmdelays(dm + np.linspace(-dm, dm, case["ndm"])))
+                dd0 = np.atleast_2d(h.get_dmdelays(dm + np.linspace(-dm, dm, case["ndm"]), ref_freq=bref))
                 if int(dd0.max()) - min(0, int(dd0.min())) >= n or int(np.abs(dd0).max()) >= n:
                     return {"skip": True}
-                o = blk.dmt_transform(dm, dmsteps=case["ndm"], only_valid_samples=(path == "dmt_valid"))
-                dd = np.atleast_2d(h.get_dmdelays(np.asarray(o.dms)))
+                o = blk.dmt_transform(dm, dmsteps=case["ndm"], ref_freq=bref, only_valid_samples=(path == "dmt_valid"))
+                dd = np.atleast_2d(h.get_dmdelays(np.asarray(o.dms), ref_freq=bref))
                 res.update(data=[float(v) for v in o.data.ravel()], shape=list(o.data.shape),
                            dms=[float(v) for v in o.dms], ddelays=[[int(v) for v in r] for r in dd])
             else:
@@ -141,6 +209,8 @@ class C09(Prop):
         if obs.get("skip"):
             return None
         path, C, n, dm = case["path"], case["C"], case["n"], case["dm"]
+        if path == "kernel":
+            return self._oracle_kernel(case, obs)
         if "err" in obs:
             return f"{path} (dm={dm}, foff={case['foff']}) raised {obs['err']}: {obs['msg'][-160:]}"
         d = obs["delays"]
@@ -217,6 +287,12 @@ class C09(Prop):
         if obs.get("skip") or "err" in obs:
             return []
         path, C, n = case["path"], case["C"], case["n"]
+        if path == "kernel":
+            rows, cols = case["rows"], case["cols"]
+            x = (np.arange(rows * cols) * 3 % 17 + 1)
+            outr, outc = (obs["shape"] if not obs.get("rejected") else (1, 1))
+            sh = " ".join(map(str, case["sh"])) or "0"
+            return [f"KB {case['kern']} {rows} {cols} {case['nsh']} {outr} {outc} | {' '.join(str(int(v)) for v in x)} | {sh}"]
         if path == "law":
             return [f"C09 delay {self._q(case['dm'])} {self._q(f)} {self._q(obs['fref'])} {self._q(case['tsamp'])}"
                     for f in obs["freqs"]]
@@ -241,6 +317,17 @@ class C09(Prop):
         if not answers:
             return None
         path = case["path"]
+        if path == "kernel":
+            a = answers[0].split()
+            if obs.get("rejected"):
+                return None if a[0] == "none" else f"compiled {case['kern']} rejects, the translated kernel answers {answers[0][:60]}"
+            if a[0] != "ok":
+                return f"translated {case['kern']} answers {answers[0][:60]}, the compiled kernel returns data"
+            want = [float(Fraction(v)) for v in a[1:]]
+            if want != obs["data"]:
+                return (f"translated {case['kern']} ({case['rows']}x{case['cols']}, shifts {case['sh']}) gives {want}, "
+                        f"the compiled kernel {obs['data']}")
+            return None
         if path == "law":
             for c, (a, f, dc) in enumerate(zip(answers, obs["freqs"], obs["delays"])):
                 m = Fraction(a.split()[1])
@@ -263,6 +350,11 @@ class C09(Prop):
         return None
 
     def regime(self, case, obs):
+        if case["path"] in ("dmt", "dmt_valid") and obs.get("ddelays"):
+            D = obs["ddelays"]
+            mixed = any(min(r) < 0 < max(r) for r in D)
+            if mixed and len(D) >= 8:
+                return case["path"] + "-inband-fine"     # in-band reference (delays of both signs), fine DM grid
         return case["path"]
 
     def nontrivial(self, case, obs):
